@@ -385,10 +385,14 @@ func c20AttachBody(sizes []int64) explore.Body {
 		alloc := totalAlloc() - alloc0
 		x.Add("bytes_streamed", size)
 		if peak > base+streamSlack {
-			return vio("C20:stream-live-heap", "live heap grew by %d bytes while streaming (baseline %d)%s", peak-base, base, ctxs)
+			v := vio("C20:stream-live-heap", "live heap grew by %d bytes while streaming (baseline %d)%s", peak-base, base, ctxs)
+			v.Volatile = true
+			return v
 		}
 		if size >= 4<<20 && alloc > uint64(size)/2+streamSlack {
-			return vio("C20:stream-total-alloc", "%d bytes allocated in total while streaming%s", alloc, ctxs)
+			v := vio("C20:stream-total-alloc", "%d bytes allocated in total while streaming%s", alloc, ctxs)
+			v.Volatile = true
+			return v
 		}
 		return nil
 	}
